@@ -135,7 +135,24 @@ def c04(run):
         "after a call that may reallocate it (R-FIXUP), and no length is stored through a narrowing explicit cast that can truncate it (R-WIDTH).")
 
 
+def c05(run):
+    from rules import r_stream
+    P = run.prog('rel')
+    r_stream.run_adv(run, P)
+    r_stream.run_cap(run, P)
+    run.min_instances('R-STREAM-ADV', 4)
+    run.min_instances('R-STREAM-CAP', 4)
+    run.assumptions = ASSUME_COMMON + ["equality of the delivered message sequence over all segmentations is NOT decided (needs a relational domain); "
+                                       "indices that are persistent reader state are only checked for transfer accounting, not for bounds"]
+    return run.finish(
+        "Stream readers (TCP three-state reader, WebSocket frame and handshake readers): every transfer of n bytes to buffer+counter is followed by "
+        "an advance of that counter by the same n or a reset, on every path (R-STREAM-ADV); a length declared by the peer reaches an allocation/copy/"
+        "read size only after the non-exceeding arm of a comparison with a maximum, the exceeding arm reaches a closing call, and a full handshake "
+        "line buffer is rejected (R-STREAM-CAP). Necessary for 'same messages however the stream is cut' and 'over-long closes the session'.")
+
+
 PROPS = {
+    'C05': c05,
     'C01': c01,
     'C03': c03,
     'C04': c04,
